@@ -1457,12 +1457,24 @@ M.assume('the relative paths of the files of a FilesMatcherModel are pairwise di
 # it takes from the front of the worklist (the inner loop invariant at its exit is the step contract).  That the loop
 # as a whole visits exactly the documented files is the bounded stand-in above.
 
+class DirNodeI(Interface):
+    """the directory at a path, at a time (the ghost `fs_epoch` of contracts/pathspec.py): its entries, in the order
+    os.scandir gives them -- the abstract directory tree the files-matcher models are specified against"""
+    attrs = {'entries': ListOf(DIR_ENTRY)}
+
+
+def dir_entries(interp, pid):
+    """the entries of the directory with denotation pid NOW: a function of (time, path)"""
+    node = new_opaque(interp, DirNodeI, 'fs.dir', index=(pathspec._epoch(interp), to_z3(pid)))
+    return interp.getattr(node, 'entries')
+
+
 def _scandir(interp, args, kwargs):
     """os.scandir(d): some sequence of entries, or OSError.  Snapshot for the step contract: the number of items
     yielded and the length of the worklist when the scan of a directory starts."""
     if interp.st.choose(2) == 1:
         raise PyRaise(OSError('scandir'))
-    entries = ListOf(DIR_ENTRY).make(interp, 'scandir')
+    entries = dir_entries(interp, pathspec.pid_of(interp, args[0]))
     snap = {'y0': wrap(interp.collect[1].length) if interp.collect is not None else 0}
     for fr in reversed(interp.frame_stack):
         if 'remaining_dirs' in fr.locals:
@@ -1542,7 +1554,7 @@ def _prune_matches_w_trace(interp, self, args, kwargs):
     to); it may be defined for directories only (dir-contents ...): HardErrorException is a possible outcome"""
     model = args[0]
     entry = model._file_type_access._dir_entry if isinstance(model, models._FileMatcherModel) else None
-    src = wrap(entry._pv_index[0]) if entry is not None and entry._pv_index else -1
+    src = wrap(entry._pv_index[-1]) if entry is not None and entry._pv_index else -1
     _log_append(interp, 'applied', src=src, fid=_fid_of(interp, [model], {}))
     # (a HardErrorException of a partial matcher leaves `generate` at once -- an allowed outcome on which nothing is
     # claimed -- so that outcome is not explored here)
